@@ -251,6 +251,53 @@ fn query_point(rng: &mut Rng, g: &Geometry<f64>) -> Coord<f64> {
     }
 }
 
+/// holed polygons in which a query that misses the polygon lies in the bounding box of a hole it is *not* in:
+/// (a) triangular shell, triangular hole whose bounding-box corner pokes beyond the hypotenuse (query outside
+/// the shell); (b) square shell with two triangular holes whose bounding boxes overlap (query inside the other
+/// hole). The nearest ring is then not the one whose box contains the query.
+fn bbox_trap(rng: &mut Rng) -> (Geometry<f64>, Coord<f64>) {
+    let c = |x: i64, y: i64| Coord { x: x as f64, y: y as f64 };
+    let ring = |v: &[(i64, i64)]| { let mut r: Vec<Coord<f64>> = v.iter().map(|&(x, y)| c(x, y)).collect(); r.push(r[0]); LineString(r) };
+    let (poly, q) = if rng.chance(1, 2) {
+        let n = rng.range(4, 9);                       // shell (0,0) (4n,0) (0,4n)
+        let a = rng.range(1, n - 2);
+        let b = rng.range(2 * n + 1, 4 * n - a - 1);    // a + b < 4n (inside), 2b > 4n (box corner outside)
+        let shell = ring(&[(0, 0), (4 * n, 0), (0, 4 * n)]);
+        let hole = ring(&[(a, a), (b, a), (a, b)]);
+        // query beyond the shell's hypotenuse, inside the hole's box
+        let qx = rng.range(2 * n + 1, b);
+        let qy = rng.range((4 * n - qx + 1).max(a), b);
+        (Polygon::new(shell, vec![hole]), c(qx, qy))
+    } else {
+        let n = rng.range(3, 6);                        // shell [0,4n]^2
+        let m = 4 * n;
+        let shell = ring(&[(0, 0), (m, 0), (m, m), (0, m)]);
+        let h1 = ring(&[(1, 1), (m - 3, 1), (1, m - 3)]);            // hypotenuse x + y = m - 2
+        let h2 = ring(&[(m - 1, m - 1), (m - 1, 3), (3, m - 1)]);    // hypotenuse x + y = m + 2
+        let mut hs = vec![h1, h2];
+        if rng.chance(1, 2) { hs.reverse(); }
+        // query strictly inside one hole and inside the other hole's box
+        let q = if rng.chance(1, 2) {
+            let x = rng.range(n + 2, m - 4); let y = (m + 3 - x).max(4).min(m - 4); c(x, y.max(m + 3 - x))
+        } else {
+            let x = rng.range(2, m / 2 - 2); let y = (m - 3 - x).min(m - 4); c(x, y.min(m - 3 - x))
+        };
+        (Polygon::new(shell, hs), q)
+    };
+    // an exact isometry of the grid + dyadic similarity
+    let sw = rng.chance(1, 2); let fx = rng.chance(1, 2); let fy = rng.chance(1, 2);
+    let f = far(rng);
+    let t = move |p: Coord<f64>| {
+        let (mut x, mut y) = if sw { (p.y, p.x) } else { (p.x, p.y) };
+        if fx { x = -x; }
+        if fy { y = -y; }
+        f(Coord { x, y })
+    };
+    let g = Geometry::Polygon(poly).map_coords(t);
+    let g = if rng.chance(1, 3) { Geometry::MultiPolygon(MultiPolygon(vec![match g { Geometry::Polygon(p) => p, _ => unreachable!() }])) } else { g };
+    (g, t(q))
+}
+
 /// non-grid coordinates for the projection arithmetic
 fn wild_cp(rng: &mut Rng) -> (Geometry<f64>, Coord<f64>) {
     let w = |rng: &mut Rng| Coord { x: (rng.unit() - 0.5) * 200.0, y: (rng.unit() - 0.5) * 200.0 };
@@ -284,6 +331,10 @@ pub fn gen(rng: &mut Rng, _index: u64) -> String {
     if rng.chance(1, 2) {
         if rng.chance(1, 10) {
             let (g, p) = wild_cp(rng);
+            return format!("C12.cp {} {}", proto::geom(&g), proto::coord(p));
+        }
+        if rng.chance(1, 10) {
+            let (g, p) = bbox_trap(rng);
             return format!("C12.cp {} {}", proto::geom(&g), proto::coord(p));
         }
         let g = gen_geom(rng, false);
